@@ -79,7 +79,9 @@ func (m *Message) Equals(toCompare *Message) bool {
 		return false
 	}
 	for key, value := range m.Metadata {
-		if value != toCompare.Metadata[key] {
+		// the key has to be present: a missing key reads as "", which equals an empty value
+		otherValue, ok := toCompare.Metadata[key]
+		if !ok || value != otherValue {
 			return false
 		}
 	}
